@@ -189,15 +189,16 @@ void reb_read_simulationarchive_from_stream_with_messages(struct reb_simulationa
                 }
             }
 
-        }else if (field.type == fd_t.type){
+        // Only read a value if the size in the file matches the size of the variable.
+        }else if (field.type == fd_t.type && field.size == sizeof(double)){
             fread(&t0, field.size, 1, sa->inf);
-        }else if (field.type == fd_sa_version.type){
+        }else if (field.type == fd_sa_version.type && field.size == sizeof(int)){
             fread(&(sa->version), field.size, 1, sa->inf);
-        }else if (field.type == fd_sa_auto_walltime.type){
+        }else if (field.type == fd_sa_auto_walltime.type && field.size == sizeof(double)){
             fread(&(sa->auto_walltime), field.size, 1, sa->inf);
-        }else if (field.type == fd_sa_auto_interval.type){
+        }else if (field.type == fd_sa_auto_interval.type && field.size == sizeof(double)){
             fread(&(sa->auto_interval), field.size, 1, sa->inf);
-        }else if (field.type == fd_sa_auto_step.type){
+        }else if (field.type == fd_sa_auto_step.type && field.size == sizeof(uint64_t)){
             fread(&(sa->auto_step), field.size, 1, sa->inf);
         }else{
             fseek(sa->inf,field.size,SEEK_CUR);
@@ -242,7 +243,8 @@ void reb_read_simulationarchive_from_stream_with_messages(struct reb_simulationa
                                 read_error = 1;
                             }
                         }else if (field.type == fd_t.type){
-                            size_t r2 = fread(&(sa->t[i]), field.size,1,sa->inf);
+                            // A time field of any other size means the blob is corrupt.
+                            size_t r2 = (field.size == sizeof(double)) ? fread(&(sa->t[i]), field.size,1,sa->inf) : 0;
                             if (debug) printf("SA Field. type=TIME      value=%.10f\n",sa->t[1]);
                             if (r2!=1){
                                 read_error = 1;
